@@ -45,7 +45,7 @@ def _names_for_tlc(rows):
 
 
 def _cfg(ck, name, **kw):
-    base = dict(Mode="valid", Depth=1, NGenNames=3, NGenCoefs=1, NGenExps=3, MaxD=3, MaxTok=2, TokPick=list(range(1, 17)), NJoin=2, Thin=1)
+    base = dict(Mode="valid", Depth=1, NGenNames=3, NGenCoefs=1, NGenExps=3, MaxD=3, MaxTok=2, TokPick=list(range(1, 17)), NJoin=2, Thin=1, MaxTr=1, MaxTrW=0)
     base.update(kw)
     lines = ["CONSTANTS"]
     for k, v in base.items():
@@ -165,8 +165,10 @@ def _validate(ck, batches):
             c = cases[off + r["tid"] - 1]
             if o["k"] == "ast":
                 detail = {"tree": o["a"], "spelling": o["texts"][r["j"] - 1] if r["op"] == "parse-spelling" and o["texts"] else "", "rt": o["rt"][r["j"] - 1] if r["op"] != "parse-spelling" else ""}
+            elif o["k"] == "persist":
+                detail = {"case": [o["rk"], o["f"], o["ca"], o["rt"]], "reread": o["r"], "exc": o["exc"]}
             else:
-                detail = {"input": ascii(c["s"]), "observed": o["o"]}
+                detail = {"input": ascii(c["s"]), "observed": o["o"], "warm": o.get("iswarm", "")}
             ck.drift_step(r["op"], detail)
             _DBG.append([r["op"], detail])
         for r in res.by_tag("P-FAIL"):
@@ -181,10 +183,15 @@ def _validate(ck, batches):
                 key = {"clause": clause, "via": e["via"], "what": r["what"], "outcome": r["outcome"], "printed": e["text"][1:-1], "micro_alias_symbol": bool(e.get("micro")), "unit_offset": e["u"]["off"],
                        "offset_unit_in_compound": e["u"]["off"] not in ("0.0", "-0.0") and (len(e["u"]["vec"]) != 1 or e["u"]["coef"] != [1, 1] or e["u"]["vec"][0][1:] != [1, 1])}
                 detail = {"tree": o["a"], "source": e["src"], "unit": e["u"], "reread": e["r"]}
+            elif clause == "persist":
+                key = {"clause": clause, "route": o["rt"], "registry": o["rk"], "carrier": o["ca"], "form": o["f"], "what": r["what"], "outcome": r["outcome"]}
+                detail = {"written": o["w"], "reread": o["r"], "exception": o["exc"]}
             else:
                 feat = r["what"] if clause == "total" else (o["cs"] if o["k"] == "str" else [])
                 key = {"clause": clause, "outcome": r["outcome"], "feat": list(feat) if clause == "total" else [], "input": ascii(c["s"])[1:-1]}
                 detail = {"evaluated": o["ev"], "kind": o["k"]}
+                if o["k"] == "py":
+                    key["parser"] = "warm" if o["warm"] else "cold"
             ck.violation(key, detail, case={k: v for k, v in c.items()})
 
 
@@ -240,7 +247,7 @@ def run(ck):
         dict(module="MC_C20", cfg=_cfg(ck, "MC_C20_mcsweep", Mode="sweep", NGenNames=len(rows_mc), NGenExps=len(exps)), env={"NAMES": p_mc}, workers=1,
              label="model table x unary templates", required_actions=["Next"]),
         dict(module="MC_C20", cfg=_cfg(ck, "MC_C20_build", Mode="build", NGenNames=ck.q(6, 8), NGenCoefs=2, NGenExps=ck.q(5, 6), MaxD=depth, Thin=ck.q(97, 7)), env={"NAMES": p_mc},
-             workers=1, simulate=ck.q(30, 120), depth=depth + 1, label=f"builder simulation depth={depth}", timeout=3000),
+             workers=1, simulate=ck.q(15, 120), depth=depth + 1, label=f"builder simulation depth={depth}", timeout=3000),
         dict(module="MC_C20", cfg=_cfg(ck, "MC_C20_sweep", Mode="sweep", NGenNames=len(rows_sw), NGenExps=ck.q(0, 5)), env={"NAMES": p_sw}, workers=1,
              label="name sweep x unary templates", required_actions=["Next"], timeout=3000),
     ]
@@ -248,6 +255,11 @@ def run(ck):
         [("full alphabet len<=3", dict(MaxTok=3, TokPick=FULL, NJoin=2)), ("numeric corner len<=5", dict(MaxTok=5, TokPick=NUMERIC, NJoin=1)), ("string corner len<=4", dict(MaxTok=4, TokPick=STRINGS, NJoin=1))],
         [("full alphabet len<=4", dict(MaxTok=4, TokPick=FULL, NJoin=1)), ("full alphabet len<=3", dict(MaxTok=3, TokPick=FULL, NJoin=2)), ("core alphabet len<=5", dict(MaxTok=5, TokPick=CORE, NJoin=1)), ("numeric corner len<=5", dict(MaxTok=5, TokPick=NUMERIC, NJoin=2)), ("string corner len<=5", dict(MaxTok=5, TokPick=STRINGS, NJoin=1))],
     )
+    gen.append(dict(module="MC_C20", cfg=_cfg(ck, "MC_C20_py", Mode="py", MaxTr=ck.q(2, 3), MaxTrW=ck.q(1, 2)), env={"NAMES": p_mc}, workers=1,
+                    label="python corner: head x trailers x wrapper x warm/cold", required_actions=["Next"], timeout=3000))
+    gen.append(dict(module="MC_C20", cfg=_cfg(ck, "MC_C20_persist", Mode="persist"), env={"NAMES": p_mc}, workers=1,
+                    label="persistence: registry kind x form x carrier x route", required_actions=["Next"]))
+    NFIX = len(gen)
     for n, (lab, kw) in enumerate(toks):
         gen.append(dict(module="MC_C20", cfg=_cfg(ck, f"MC_C20_tok{n}", Mode="tok", **kw), env={"NAMES": p_mc}, workers=1, label="token sequences " + lab, required_actions=["Next"], timeout=3000))
     res = _tlc_many(ck, gen)
@@ -281,7 +293,7 @@ def run(ck):
 
     # ---- (b) total side: token sequences
     tcases = []
-    for r in res[4:]:
+    for r in res[NFIX:]:
         tcases += _tok_cases(r)
     seen = set()
     uniq = []
@@ -306,10 +318,27 @@ def run(ck):
     for o in fobs:
         ck.cov["fuzz_outcomes"][o.get("o", "?")] = ck.cov["fuzz_outcomes"].get(o.get("o", "?"), 0) + 1
 
+    # ---- (b'') the Python corner (warm and cold parser) and (c) the persistence routes
+    pcases = [{"k": "py", "h": r["h"], "tr": r["tr"], "w": r["w"], "warm": r["warm"], "s": r["s"]} for r in res[4].by_tag("PY")]
+    pcases.sort(key=lambda c: (c["h"], c["w"], c["tr"], c["warm"]))
+    pobs = _replay(ck, pcases, rows_mc)
+    ck.cov["python_corner_cases"] = len(pcases)
+    ck.cov["python_corner_outcomes"] = {}
+    for o in pobs:
+        ck.cov["python_corner_outcomes"][o.get("o", "?")] = ck.cov["python_corner_outcomes"].get(o.get("o", "?"), 0) + 1
+    if any(o.get("iswarm") != o.get("warm") for o in pobs if "_error" not in o and o.get("o") != "Hang"):
+        raise MachineryFailure("the warm/cold state of the parser's global dict could not be set up")
+    ck.sample({"python_corner": pcases[len(pcases) // 2]["s"]})
+    scases2 = [{"k": "persist", "rk": r["rk"], "f": r["f"], "ca": r["ca"], "rt": r["rt"]} for r in res[5].by_tag("PERSIST")]
+    sobs2 = _replay(ck, scases2, rows_mc)
+    ck.cov["persistence_cases"] = len(scases2)
+    ck.cov["uncovered"] = list(ck.cov.get("uncovered", [])) + ["savetxt/loadtxt of a re-valued default symbol: nothing travels with the text and loadtxt takes no registry (read with the stock value; not demanded)"]
+
     # ---- validation: TLC evaluates the predicates on every observation
-    _validate(ck, [(obs, cases, p_mc, "valid", 3000), (sobs, scases, p_sw, "sweep", 3000), (tobs, tcases, p_mc, "tokens", 60000), (fobs, fcases, p_mc, "fuzz", 60000)])
-    n_eval = sum(len(o["sp"]) + len(o["rt"]) for o in obs) + sum(len(o["sp"]) + len(o["rt"]) for o in sobs) + len(tobs) + len(fobs)
-    n_nontrivial = len(cases) + len(scases) + sum(1 for o in tobs if o["o"] != "UnitParseError" or o["ev"])
+    _validate(ck, [(obs, cases, p_mc, "valid", 3000), (sobs, scases, p_sw, "sweep", 3000), (tobs, tcases, p_mc, "tokens", 60000), (fobs, fcases, p_mc, "fuzz", 60000),
+                   (pobs, pcases, p_mc, "python", 60000), (sobs2, scases2, p_mc, "persist", 60000)])
+    n_eval = sum(len(o["sp"]) + len(o["rt"]) for o in obs) + sum(len(o["sp"]) + len(o["rt"]) for o in sobs) + len(tobs) + len(fobs) + len(pobs) + len(sobs2)
+    n_nontrivial = len(cases) + len(scases) + sum(1 for o in tobs if o["o"] != "UnitParseError" or o["ev"]) + len(scases2) + len(set(c["s"] for c in pcases))
 
     _debug_dump(ck)
     ck.cov["exhaustive"] = True
